@@ -90,6 +90,7 @@ type genState struct {
 	nextVal     int
 	created     map[common.Address]bool
 	evidenceFor int
+	trickle     int // > 0: half-steps left of an "one small unlock per block" series (then a time jump)
 }
 
 func (w *World) gen() *genState {
@@ -106,7 +107,48 @@ func (w *World) gen() *genState {
 func (w *World) weight(kind string) float64 { return w.Cfg.Weights[kind] }
 
 // nextStep draws the next step of an online-generated run.
+// trickleStep: one small unlock in each of 9-14 consecutive blocks, so that as many maturity keys
+// pile up in the time queue, then a jump of block time past all of them (one sweep meets them all).
+func (w *World) trickleStep(r *Rand) (Step, bool) {
+	g := w.gen()
+	sub := r.Uint64()
+	if g.trickle == 0 {
+		if !w.Cfg.Bursts || w.Cfg.FaultFree || w.weight("el.locking") == 0 || w.view() == nil || !r.Chance(0.012) {
+			return Step{}, false
+		}
+		g.trickle = 2 * (9 + r.Intn(6))
+	}
+	g.trickle--
+	if g.trickle == 0 {
+		a := &BlockArgs{DtMs: (w.Cfg.ExitSec + w.Cfg.UnlockSec + 7) * 1000}
+		w.fault("bft-time-jump")
+		w.probe("many-maturity-keys-then-time-jump")
+		return mkStep("block", a, sub), true
+	}
+	if g.trickle%2 == 0 {
+		return mkStep("block", &BlockArgs{DtMs: w.Cfg.BlockMs/2 + r.Int63n(w.Cfg.BlockMs+1)}, sub), true
+	}
+	st := w.elHeadState()
+	for _, v := range w.createdVals(st) {
+		if v == w.Vals[0].Addr() {
+			continue
+		}
+		for _, t := range w.tokensOf(st) {
+			if ev := st.Vals[v]; ev != nil && ev.Locked[t.Hex()] != nil && ev.Locked[t.Hex()].Cmp(big.NewInt(1_000_000)) > 0 {
+				op := &ELOp{Kind: "unlock", Val: v.Hex(), Token: t.Hex(), Amount: fmt.Sprint(1 + r.Intn(1000)), Rcpt: pick(r, w.Users).Hex(), Guards: true}
+				return mkStep("el.ops", []*ELOp{op}, sub), true
+			}
+		}
+	}
+	// nobody to unlock from (the anchor excepted): a validator with funds first
+	g.trickle = 0
+	return Step{}, false
+}
+
 func (w *World) nextStep(r *Rand) Step {
+	if st, ok := w.trickleStep(r); ok {
+		return st
+	}
 	type cand struct {
 		k string
 		w float64
